@@ -32,6 +32,9 @@ PROP = {
         "GunYu.Props.C03.chunked_roundtrip",
         "GunYu.Props.C03.hash_unsplit_raw_is_encode",
         "GunYu.Props.C03.fanOut_same_key",
+        "GunYu.Props.C03.stream_roundtrip_partial",
+        "GunYu.Props.C03.restore_path",
+        "GunYu.Props.C03.expand_path",
         "GunYu.Props.C03.ttl_absolute",
         "GunYu.Props.C03.replay_db",
     ],
@@ -74,9 +77,11 @@ PROP = {
         "are not generated",
     ],
     "partial": [
-        "stream_roundtrip_partial: stream values (listpacks v1-v4, SAMEFIELDS, deleted entries, groups/PEL, IDMP) have encoder "
-        "spec + decoder model + correspondence + monitor, but no Lean round-trip theorem yet (expand_roundtrip covers "
-        "strings, lists, sets, sorted sets, hashes in all their encodings)",
+        "stream_roundtrip_partial: for streams the theorem covers the ENTRIES (every listpack node -> one XADD per live entry "
+        "with exact id and field/value list: SAMEFIELDS, deleted entries, every integer width, raw/LZF blob; D11 repaired). "
+        "Not yet proved (stream_roundtrip_stmt): length/last-id/first-id/max-deleted/entries-added -> XSETID, consumer groups "
+        "and PELs -> XGROUP/XCLAIM, IDMP skipping, and the replay of those commands through the oracle; these are covered "
+        "by encoder spec + decoder model + correspondence + the keyspace monitor only",
         "full_sync_partial: the per-value theorems (string/container round trips, expand_roundtrip, raw_is_encode, "
         "chunked_roundtrip, ttl_absolute, replay_db, dump_payload) are not yet composed into one theorem over "
         "parseRdb(rdbFile f) + fanOut for a whole dataset; the composition is covered by correspondence and the monitor",
